@@ -425,3 +425,42 @@ def async_inductive(tier):
           "defective_variant_refuted": "Deliver may take Cap + 1 bytes: inductive step fails"}
     json.dump(st, open(p, "w"))
     return st
+
+
+def compact_ids_inductive():
+    """spec/CompactIdsApa.tla: the compact protocol's field-id channel (writer, length pass, reader in lock step) with SYMBOLIC
+    field ids (any i16) and nesting <= 16.  Apalache proves IndInv (the three parties hold the same last id and stack; every
+    field begin reconstructs the writer's id and the length pass takes the writer's short/long decision) inductive; three
+    defective variants -- a length pass that does not restore its last id at struct end (seed c04f), a writer that saves 0
+    instead of its last id at struct begin (seed c01f), a reader that does not reset its last id at struct begin (seed c12g) --
+    must each fail the inductive step.  Cached on the specification text."""
+    key = c.spec_hash("CompactIdsApa", "apalache-compact-ids")
+    p = os.path.join(c.OUT, "cache", f"apalache-compact-ids-{key}.json")
+    if os.path.exists(p):
+        return json.load(open(p))
+    # the abstraction takes its short/long rule from CompactProto.Header (the module the call traces are validated against)
+    if "IF delta > 0 /\\ delta < 15 THEN" not in open(os.path.join(c.SPEC, "CompactProto.tla")).read():
+        raise c.ToolError("CompactProto.Header no longer states the short-form rule CompactIdsApa.Short abstracts")
+    base = c.apalache("CompactIdsApa", ["--cinit=ConstInit", "--init=Init", "--inv=IndInv", "--length=0"], tag="apa-ids-base")
+    step = c.apalache("CompactIdsApa", ["--cinit=ConstInit", "--init=IndInit", "--inv=IndInv", "--length=1"], tag="apa-ids-step")
+    for name, r in (("Init => IndInv", base), ("IndInv /\\ Next => IndInv'", step)):
+        if not r["ok"]:
+            raise c.ToolError(f"CompactIdsApa: {name} does not hold:\n" + r["out"])
+    txt = open(os.path.join(c.SPEC, "CompactIdsApa.tla")).read()
+    variants = {
+        "length pass keeps its last id at struct end": ("/\\ ll' = ls[Len(ls)] /\\ ls' = SubSeq(ls, 1, Len(ls) - 1)", "/\\ ll' = ll /\\ ls' = SubSeq(ls, 1, Len(ls) - 1)"),
+        "writer saves 0 instead of its last id at struct begin": ("/\\ ws' = Append(ws, wl) /\\ wl' = 0", "/\\ ws' = Append(ws, 0) /\\ wl' = 0"),
+        "reader keeps its last id at struct begin": ("/\\ rs' = Append(rs, rl) /\\ rl' = 0", "/\\ rs' = Append(rs, rl) /\\ rl' = rl"),
+    }
+    refuted = []
+    for name, (a, b) in variants.items():
+        if a not in txt:
+            raise c.ToolError("CompactIdsApa: cannot derive the variant: " + name)
+        r = c.apalache("CompactIdsApa", ["--cinit=ConstInit", "--init=IndInit", "--inv=IndInv", "--length=1"], tag="apa-ids-ref", text=txt.replace(a, b, 1))
+        if not r["violation"]:
+            raise c.ToolError(f"CompactIdsApa: the variant '{name}' is not refuted (vacuous proof):\n" + r["out"])
+        refuted.append(name)
+    st = {"engine": "apalache 0.58", "field_ids": "symbolic (any i16)", "max_depth": 16,
+          "obligations": {"Init => IndInv": base["dt"], "IndInv /\\ Next => IndInv'": step["dt"]}, "defective_variants_refuted": refuted}
+    json.dump(st, open(p, "w"))
+    return st
